@@ -50,7 +50,9 @@ CLAIMED = {
     "C11": {
         "text": "Molecules methods executed on symbolic unit quaternions / positions / shifts: x,y,z = images of (0,0,1),(0,1,0),(1,0,0), orthonormal, z = cross_zyx(x,y); world rotations compose on the left and keep positions; internal rotations compose on the right; translate_internal adds R.s; closed forms of linear_transform and of inv=True (exact inverse); copy=True never touches the original; "
                 "affine_matrix and local_coordinates = pos(/scale) + R(k - centre); quat/matrix/Euler representation round trips (Euler as an uninterpreted inverse pair + translate_euler involution on all 54 sequences). All polynomial identities modulo |q|=1, decided by nlsat.",
-        "note": "Trusted: z3, symx, SymRotation contract. Bounds: axes/coords with an arbitrary unit quaternion; rotation-vector operations with 4 (quick) / 30 exact rational molecule orientations. NOT covered (stated): Molecules.from_axes / axes_to_rotator incl. anti-parallel and mixed batches (sqrt/arctan2 chains not encoded) - that clause of the property is not decided by this check.",
+        "note": "Trusted: z3, symx, SymRotation contract. Bounds: axes/coords with an arbitrary unit quaternion; rotation-vector operations with 4 (quick) / 30 exact rational molecule orientations. Rotation from two axes: _get_align_rotator executed on batches mixing a symbolic generic unit vector with anti-parallel and parallel rows (sqrt/arctan2 uninterpreted, from_rotvec recorded row-wise): anti-parallel rows get a half turn about an orthogonal axis, parallel rows the identity, "
+                "and for generic rows rotvec/theta is a unit axis about which Rodrigues' rotation by the angle with (sin,cos)=(|src x dst|, src.dst) maps src to dst; axes_to_rotator on axis-aligned frames with symbolic signs (1 and 2 rows) returns the given z and y. "
+                "NOT covered: axes_to_rotator as a whole on generic frames (composition of two symbolic axis-angle rotations), non-unit / non-orthogonal input axes.",
         "ref": "DESIGN.md §4 C11",
     },
     "C12": {
